@@ -407,4 +407,117 @@ Section StreamMain.
       (destruct (entry rec2 _ m a _ _ tt tt) as [r| | | |] eqn:Er; cbn [obind] in *; try reflexivity;
        apply Hfs; auto; lia).
   Qed.
+
+  Lemma scase_vnil : SPvs VNil.
+  Proof.
+    intros _ rest e. cbn [rtoks_values app]. split.
+    - intros s fuel Hf _. destruct fuel as [|f]; [cbn [cvs] in Hf; lia|]. reflexivity.
+    - intros ss fuel Hf _. destruct fuel as [|f]; [cbn [cvs] in Hf; lia|]. rewrite sseq_tup_eq. now destruct ss.
+  Qed.
+
+  Lemma scase_vcons v vs : SPv v -> SPvs vs -> SPvs (VCons v vs).
+  Proof.
+    intros Hv Hvs Hc rest e.
+    cbn [core_values] in Hc. apply andb_prop in Hc as [Hcv Hcvs].
+    specialize (Hv Hcv). destruct (Hvs Hcvs rest e) as [Hall Htup].
+    destruct (rhead v Hcv) as (tk & more & Ev & Htk).
+    cbn [rtoks_values]. rewrite Ev. rewrite <- app_assoc. rewrite <- app_comm_cons.
+    assert (Hm2 : forall (A : Type) (x y : A), match tk with RClose => x | _ => y end = y).
+    { intros. destruct Htk as [-> | (k' & s' & ->)]; [reflexivity | now destruct k']. }
+    split.
+    - intros s fuel Hf Hne. destruct fuel as [|f]; [cbn [cvs] in Hf; lia|].
+      rewrite sseq_all_eq, rread_cons. cbn [obind]. rewrite Hm2.
+      rewrite (spec_items_cons decode pf F) in *.
+      pose proof (Hv tk more Ev (rtoks_values vs ++ RClose :: rest) e s None f) as Hd. cbn [op_or_equal] in Hd.
+      rewrite Hd; [|cbn [cvs] in Hf; lia|intros E; rewrite E in Hne; now apply Hne].
+      destruct (spec_v v s None) as [x| | | |]; cbn [obind ret omap] in *; try reflexivity.
+      rewrite Hall; [|cbn [cvs] in Hf; lia|intros E; rewrite E in Hne; now apply Hne].
+      destruct (spec_items vs s); reflexivity.
+    - intros ss fuel Hf Hne. destruct fuel as [|f]; [cbn [cvs] in Hf; lia|].
+      rewrite sseq_tup_eq. rewrite (spec_tuple_cons decode pf F) in *.
+      destruct ss as [|s ss']; [now destruct Hne|].
+      rewrite rread_cons. cbn [obind]. rewrite Hm2.
+      cbn [shape_size fold_right] in Hf.
+      pose proof (Hv tk more Ev (rtoks_values vs ++ RClose :: rest) e s None f) as Hd. cbn [op_or_equal] in Hd.
+      rewrite Hd; [|cbn [cvs] in Hf; lia|intros E; rewrite E in Hne; now apply Hne].
+      destruct (spec_v v s None) as [x| | | |]; cbn [obind ret omap] in *; try reflexivity.
+      rewrite Htup; [|cbn [cvs shape_size] in *; lia|intros E; rewrite E in Hne; now apply Hne].
+      destruct (spec_tuple vs ss'); reflexivity.
+  Qed.
+
+  Lemma swalk_all : (forall v, SPv v) /\ (forall f, SPf f) /\ (forall fs, SPfs fs) /\ (forall vs, SPvs vs).
+  Proof.
+    apply doc_mutind.
+    - apply scase_scalar.
+    - intros fs Hfs tl Htl. now apply scase_object.
+    - apply scase_array.
+    - intros; intros Hc; discriminate.
+    - intros; intros Hc; discriminate.
+    - intros k key op v H. exact H.
+    - intros; exact I.
+    - intros; exact I.
+    - apply scase_fnil.
+    - intros f Hf fs Hfs. now apply scase_fcons.
+    - apply scase_vnil.
+    - intros v Hv vs Hvs. now apply scase_vcons.
+  Qed.
 End StreamMain.
+
+(* ------------------------------------------------------------------ root and default fuel *)
+Lemma rtoks_len :
+  (forall v, core_value v = true -> vlen v <= length (rtoks_value v)) /\
+  (forall f, match f with Field _ _ _ v => core_value v = true -> vlen v <= length (rtoks_value v) | _ => True end) /\
+  (forall fs, core_fields fs = true -> fslen false fs <= length (rtoks_fields fs)) /\
+  (forall vs, core_values vs = true -> vslen vs <= length (rtoks_values vs)).
+Proof.
+  apply doc_mutind.
+  - intros k s _. unfold vlen. cbn. lia.
+  - intros fs Hfs tl _ Hc. destruct tl; [|discriminate]. cbn [core_value] in Hc.
+    specialize (Hfs Hc). rewrite vlen_object. cbn [rtoks_value rtoks_values length]. rewrite !app_length. cbn [length]. lia.
+  - intros items Hvs Hc. cbn [core_value] in Hc. specialize (Hvs Hc). rewrite vlen_array.
+    cbn [rtoks_value length]. rewrite !app_length. cbn [length]. lia.
+  - intros; discriminate.
+  - intros; discriminate.
+  - intros k key op v H. exact H.
+  - intros; exact I.
+  - intros; exact I.
+  - intros _. unfold fslen. cbn. lia.
+  - intros f Hf fs Hfs Hc. cbn [core_fields] in Hc. apply andb_prop in Hc as [H1 H2].
+    destruct f as [k key op v| |]; try discriminate. cbn [core_field] in H1.
+    specialize (Hf H1). specialize (Hfs H2). rewrite fslen_cons.
+    cbn [rtoks_fields rtoks_field length]. rewrite !app_length. cbn [length].
+    assert (length (op_toks false op) <= length (match op with Some o => [ROp o] | None => [] end))
+      by (destruct op as [[]|]; cbn; lia).
+    rewrite app_length. lia.
+  - intros _. unfold vslen. cbn. lia.
+  - intros v Hv vs Hvs Hc. cbn [core_values] in Hc. apply andb_prop in Hc as [H1 H2].
+    specialize (Hv H1). specialize (Hvs H2). rewrite vslen_cons. cbn [rtoks_values]. rewrite app_length. lia.
+Qed.
+
+Theorem stream_path_spec_core decode pf F sh d :
+  core_fields d = true -> fits decode pf F sh d ->
+  deser_stream decode pf F sh (tokens d) = spec_value decode pf F sh d.
+Proof.
+  intros Hc Hfit. unfold fits in Hfit. unfold deser_stream, tokens, sde_root. cbn [fst].
+  pose proof (proj1 (proj2 (proj2 (swalk_all decode pf F))) d Hc true [] None ([], None)) as H.
+  rewrite app_nil_r in H.
+  assert (Hend : end_ok true [] None ([], None)) by (right; auto).
+  specialize (H Hend).
+  pose proof (proj1 (proj2 (proj2 cost_bound)) d Hc) as Hb.
+  pose proof (proj1 (proj2 (proj2 rtoks_len)) d Hc) as Hl.
+  unfold spec_value in *.
+  destruct sh; try (now destruct Hfit); cbn [thint_of wmode_of wmode_core] in *.
+  - rewrite H; auto.
+    + destruct (spec_fields decode pf F d (WMap sh) (acc0 (WMap sh))); reflexivity.
+    + unfold stream_fuel. cbn [wm_size shape_size]. lia.
+    + intros E. rewrite E in Hfit. now apply Hfit.
+  - rewrite H; auto.
+    + destruct (spec_fields decode pf F d (WStruct token fields) (acc0 (WStruct token fields))); reflexivity.
+    + unfold stream_fuel. cbn [wm_size]. lia.
+    + intros E. rewrite E in Hfit. now apply Hfit.
+Qed.
+
+Theorem paths_agree_core decode pf F sh d :
+  core_fields d = true -> fits decode pf F sh d ->
+  deser_tape decode pf F sh (flatten d) = deser_stream decode pf F sh (tokens d).
+Proof. intros Hc Hf. now rewrite tape_path_spec_core, stream_path_spec_core. Qed.
